@@ -95,8 +95,11 @@ func genDetCase(c *core.Ctx, i int) detCase {
 		}}
 	case 9: // one loaded Template, the configuration changed afterwards: what it writes depends on the configuration of the moment,
 		// exactly like a Template loaded later from the same files
-		files := map[string]string{"page.tw": "p {{ 1 / zero }}", "errors/a.tw": "<error page A>", "errors/b.tw": "<error page B>{{ 1 + 1 }}", "ok.tw": "fine"}
-		order := [][]string{{"errors/a", "errors/b"}, {"errors/b", "errors/a"}, {"errors/a", "errors/missing"}, {"errors/a", ""}}[r.Intn(4)]
+		files := map[string]string{"page.tw": "p {{ 1 / zero }}", "errors/a.tw": "<error page A>", "errors/b.tw": "<error page B>{{ 1 + 1 }}", "ok.tw": "fine",
+			// several pages a carelessly written error page path could be taken to mean
+			"500.tw": "<500 at the top>", "errors/500.tw": "<500 in errors>", "admin/errors/500.tw": "<500 of the admin pages>", "errors/500/index.tw": "<500 index>"}
+		order := [][]string{{"errors/a", "errors/b"}, {"errors/b", "errors/a"}, {"errors/a", "errors/missing"}, {"errors/a", ""},
+			{"errors/a", "/errors/500.tw"}, {"/errors/500.tw", "errors/500.tw"}, {"500.tw", "/500"}, {"errors/500", "Errors/500"}, {"./errors/500", "errors/500/"}, {"errors//500", "views/errors/500"}}[r.Intn(10)]
 		debugSecond := r.Intn(3) == 0
 		debugFirst := r.Intn(2) == 0
 		if order[1] == "" {
@@ -246,6 +249,19 @@ func genDetCase(c *core.Ctx, i int) detCase {
 				inserts = append(inserts, fmt.Sprintf("@insert(\"%s\", %d)\n", names[k], k))
 			} else {
 				inserts = append(inserts, fmt.Sprintf("@insert(\"%s\")b%d@end\n", names[k], k))
+			}
+		}
+		if r.Intn(3) == 0 {
+			// several names, each passed twice (the names the layout reserves among them)
+			inserts = inserts[:0]
+			rep := []string{names[0], names[1], "ok", names[0], "ok", names[1], names[2], names[2]}[:4+2*r.Intn(3)]
+			r.Shuffle(len(rep), func(a, b int) { rep[a], rep[b] = rep[b], rep[a] })
+			for k, n := range rep {
+				if r.Intn(2) == 0 {
+					inserts = append(inserts, fmt.Sprintf("@insert(\"%s\", %d)\n", n, k))
+				} else {
+					inserts = append(inserts, fmt.Sprintf("@insert(\"%s\")b%d@end\n", n, k))
+				}
 			}
 		}
 		files := map[string]string{
